@@ -601,6 +601,36 @@ func runAnnounce(c *Ctx) {
 				c.Unknown(key, call.Pos(), "announced count "+types.ExprString(cnt)+" is not a local variable or constant")
 				return
 			}
+			// the planned number of streams is positive too: a count that is >= 1 only because `< 1` is *rejected* just in front
+			// of the announcement would turn a transfer with nothing to open (a tree without regular files) into an error
+			InspectNoLits(f.Body, func(m ast.Node) bool {
+				fs, ok := m.(*ast.ForStmt)
+				if !ok || fs.Cond == nil {
+					return true
+				}
+				opens := false
+				InspectNoLits(fs.Body, func(x ast.Node) bool {
+					if c2, ok := x.(*ast.CallExpr); ok {
+						if sel, ok := ast.Unparen(c2.Fun).(*ast.SelectorExpr); ok && sel.Sel.Name == "OpenStream" {
+							opens = true
+						}
+					}
+					return true
+				})
+				be, isB := ast.Unparen(fs.Cond).(*ast.BinaryExpr)
+				if !opens || !isB || be.Op != token.LSS {
+					return true
+				}
+				bo := localVar(info, be.Y)
+				ref := f.CFG().Find(fs.Cond.Pos())
+				if bo == nil || !ref.Valid() {
+					c.Unknown(fmt.Sprintf("announce/%s#%d/planned>=1", f.Name, k), fs.Cond.Pos(), "cannot identify the bound of the loop that opens the data streams")
+					return true
+				}
+				c.Check(pos.Passed(f, ref, id(bo)), fmt.Sprintf("announce/%s#%d/planned>=1", f.Name, k), fs.Cond.Pos(), "at least one data stream is planned on every path (clamped, not rejected)",
+					"the loop that opens the data streams can run zero times ("+bo.Name()+" is not proven >= 1 at the loop): nothing is opened, and the transfer of a tree without regular files ends in an error (or announces 0 streams, on which the receiver waits) instead of succeeding")
+				return true
+			})
 			c.Check(pos.Passed(f, r, id(o)), key, call.Pos(), "the announced count "+o.Name()+" is >= 1 on every path to the announcement",
 				"the sender can announce DataStreams{Count: 0} ("+o.Name()+" is not proven >= 1 on every path): the receiver loops while the announced count is 0, so for that transfer (e.g. a tree without regular files) it never proceeds and hangs after the sender has finished")
 		})
